@@ -11,6 +11,11 @@ U32s == {<<0, 0, 0, 0>>, <<0, 0, 0, 1>>, <<255, 255, 255, 255>>}
 U32few == {<<0, 0, 1, 44>>}
 SLens == {0, 1, 127, 128, 16383, 16384, 65535}                \* boundary lengths of strings and binaries
 
+\* windows of lengths wide enough that, whatever the fixed part of the packet, the Remaining Length / Property Length passes
+\* through each step of the variable byte integer (127|128, 16383|16384, and for payloads 2097151|2097152) value by value
+Win == (96..130) \cup (16340..16390)
+WinBig == (2097120..2097156)
+
 UpsChoices == {<<>>, <<<<F("k", 1), F("v", 1)>>>>, <<<<F("key", 3), F("value~", 9)>>, <<F("key", 3), F("other", 5)>>>>}
 
 \* ------------------------------------------------------------------------------------------ PUBLISH
@@ -30,6 +35,9 @@ PubBoundaries ==   \* boundary lengths and integer extremes, one field at a time
   \cup { [PubBase EXCEPT !.resp = <<F("r~", n)>>] : n \in SLens }
   \cup { [PubBase EXCEPT !.ctype = <<F("ct", n)>>] : n \in SLens }
   \cup { [PubBase EXCEPT !.ups = <<<<F("k~", n), F("v", m)>>>>] : n \in {0, 1, 128, 65535}, m \in {0, 127, 65535} }
+  \cup { [PubBase EXCEPT !.qos = <<q>>, !.payload = <<F("p", n)>>] : q \in {0, 1}, n \in Win \cup WinBig }      \* remaining length steps
+  \cup { [PubBase EXCEPT !.corr = <<F("c", n)>>] : n \in Win }                                               \* property length steps
+  \cup { [PubBase EXCEPT !.ups = <<<<F("k", 2), F("v", n)>>>>] : n \in Win }
   \cup { [PubBase EXCEPT !.mei = <<x>>] : x \in U32s }
   \cup { [PubBase EXCEPT !.alias = <<x>>] : x \in {1, 255, 256, 65535} }
   \cup { [PubBase EXCEPT !.qos = <<q>>, !.payload = <<F("p", n)>>, !.corr = <<F("c", m)>>] : q \in {0, 2}, n \in {100, 16300}, m \in {0, 10, 60} }
@@ -45,7 +53,8 @@ SubCases ==
   { [filters |-> <<f>>, ups |-> up] : f \in FltAll, up \in UpsChoices }
   \cup { [filters |-> <<f, g>>, ups |-> <<>>] : f \in FltAll, g \in {Flt(5, 2, TRUE, FALSE, 1), Flt(1, 0, FALSE, TRUE, 2)} }
   \cup { [filters |-> <<Flt(3, 1, FALSE, FALSE, 0), Flt(4, 2, TRUE, TRUE, 2), Flt(5, 0, FALSE, TRUE, 1)>>, ups |-> up] : up \in UpsChoices }
-  \cup { [filters |-> <<Flt(n, 1, FALSE, FALSE, 0)>>, ups |-> <<>>] : n \in SLens \ {0} }
+  \cup { [filters |-> <<Flt(n, 1, FALSE, FALSE, 0)>>, ups |-> <<>>] : n \in (SLens \ {0}) \cup Win }
+  \cup { [filters |-> <<Flt(3, 1, FALSE, FALSE, 0)>>, ups |-> <<<<F("k", 2), F("v", n)>>>>] : n \in Win }
   \cup { [filters |-> <<>>, ups |-> up] : up \in UpsChoices }
 ASSUME PrintT(<<"subscribe cases", Cardinality(SubCases)>>)
 ASSUME ndJsonSerialize(Out("tx_sub.ndjson"), SetToSeq({[kind |-> "sub", o |-> o, e |-> SubscribeExpect(o)] : o \in SubCases}))
@@ -54,7 +63,8 @@ UnsubCases ==
   { [filters |-> fs, ups |-> up] :
       fs \in {<<>>, <<[f |-> F("f", 3)]>>, <<[f |-> F("f", 3)], [f |-> F("g~", 7)]>>, <<[f |-> F("f", 1)], [f |-> F("g", 2)], [f |-> F("h", 3)]>>},
       up \in UpsChoices }
-  \cup { [filters |-> <<[f |-> F("f", n)]>>, ups |-> <<>>] : n \in SLens \ {0} }
+  \cup { [filters |-> <<[f |-> F("f", n)]>>, ups |-> <<>>] : n \in (SLens \ {0}) \cup Win }
+  \cup { [filters |-> <<[f |-> F("f", 3)]>>, ups |-> <<<<F("k", 2), F("v", n)>>>>] : n \in Win }
 ASSUME ndJsonSerialize(Out("tx_unsub.ndjson"), SetToSeq({[kind |-> "unsub", o |-> o, e |-> UnsubscribeExpect(o)] : o \in UnsubCases}))
 
 \* --------------------------------------------------------------------------------------- DISCONNECT
@@ -62,13 +72,14 @@ DiscReasons == {0, 4, 128, 129, 130, 131, 147, 148, 149, 150, 151, 152, 153}
 DiscCases ==
   { [reason |-> r, sei |-> s, rs |-> x, ups |-> up] : r \in Opt(DiscReasons), s \in Opt({<<0, 0, 0, 30>>}), x \in Opt({F("bye", 3)}), up \in UpsChoices }
   \cup { [reason |-> <<0>>, sei |-> <<s>>, rs |-> <<>>, ups |-> <<>>] : s \in U32s }
-  \cup { [reason |-> <<0>>, sei |-> <<>>, rs |-> <<F("r~", n)>>, ups |-> <<>>] : n \in SLens }
+  \cup { [reason |-> <<0>>, sei |-> <<>>, rs |-> <<F("r~", n)>>, ups |-> <<>>] : n \in SLens \cup Win }
 ASSUME ndJsonSerialize(Out("tx_disc.ndjson"), SetToSeq({[kind |-> "disc", o |-> o, e |-> DisconnectExpect(o)] : o \in DiscCases}))
 
 \* --------------------------------------------------------------------------------------------- AUTH
 AuthCases ==
   { [reason |-> r, method |-> m, data |-> d, ups |-> up] : r \in Opt({0, 24, 25}), m \in Opt({F("m", 5)}), d \in Opt({F("d", 0), F("d", 9)}), up \in UpsChoices }
   \cup { [reason |-> <<24>>, method |-> <<F("m~", n)>>, data |-> <<F("d", m)>>, ups |-> <<>>] : n \in SLens, m \in {0, 128, 65535} }
+  \cup { [reason |-> <<24>>, method |-> <<F("m", 4)>>, data |-> <<F("d", n)>>, ups |-> <<>>] : n \in Win }
 ASSUME ndJsonSerialize(Out("tx_auth.ndjson"), SetToSeq({[kind |-> "auth", o |-> o, e |-> AuthExpect(o)] : o \in AuthCases}))
 
 \* ------------------------------------------------------------------------------------------ CONNECT
@@ -125,9 +136,12 @@ ConnFlagsAll ==    \* every combination of the flag-relevant options
       w \in {WillOff} \cup {[WillOn EXCEPT !.qos = q, !.retain = r] : q \in Opt({0, 1, 2}), r \in Opt(BOOLEAN)} }
 
 ConnBoundaries ==
-  { [ConnBase EXCEPT !.cid = <<F("id~", n)>>] : n \in SLens } \cup { [ConnBase EXCEPT !.user = <<F("u", n)>>] : n \in SLens }
+  { [ConnBase EXCEPT !.cid = <<F("id~", n)>>] : n \in SLens \cup Win } \cup { [ConnBase EXCEPT !.user = <<F("u", n)>>] : n \in SLens }
   \cup { [ConnBase EXCEPT !.pass = <<F("p", n)>>] : n \in SLens }
   \cup { [ConnBase EXCEPT !.method = <<F("m", n)>>, !.data = <<F("d", m)>>] : n \in {0, 1, 128, 65535}, m \in {0, 127, 65535} }
+  \cup { [ConnBase EXCEPT !.method = <<F("m", 4)>>, !.data = <<F("d", n)>>] : n \in Win }                    \* CONNECT property length steps
+  \cup { [ConnBase EXCEPT !.will = [WillOn EXCEPT !.corr = <<F("x", n)>>]] : n \in Win }                    \* will property length steps
+  \cup { [ConnBase EXCEPT !.will = [WillOn EXCEPT !.payload = F("wp", n)]] : n \in Win }
   \cup { [ConnBase EXCEPT !.keepalive = <<k>>] : k \in {0, 1, 65535} } \cup { [ConnBase EXCEPT !.recvmax = <<k>>] : k \in {1, 256, 65535} }
   \cup { [ConnBase EXCEPT !.aliasmax = <<k>>] : k \in {0, 1, 65535} }
   \cup { [ConnBase EXCEPT !.sei = <<x>>] : x \in U32s } \cup { [ConnBase EXCEPT !.maxpkt = <<x>>] : x \in U32s \ {<<0, 0, 0, 0>>} }
